@@ -36,15 +36,38 @@ def gen_inputs(rng, count):
     res = []
     for _ in range(count):
         n = int(rng.randint(1, 5))
-        res.append({"g": [rand_rat(rng) for _ in range(n)], "p": rand_rat(rng), "n0": rand_rat(rng), "es": rand_rat(rng)})
+        integral = rng.randint(0, 4) == 0     # a quarter of the calls have whole-number gains (int dtypes possible)
+        g = [[int(rng.randint(1, 7)), 1] for _ in range(n)] if integral else [rand_rat(rng) for _ in range(n)]
+        res.append({"g": g, "p": rand_rat(rng), "n0": rand_rat(rng), "es": rand_rat(rng), "how": int(rng.randint(0, 6))})
     return res
+
+
+def present(gf, inp, how):
+    """the gain vector in one of several exact numpy representations (chosen by the recorder's seed)"""
+    integral = all(b == 1 for _, b in inp["g"])
+    if how == 1 and integral:
+        return gf.astype(np.int64), "int64"
+    if how == 2 and integral:
+        return gf.astype(np.int32), "int32"
+    if how == 3:
+        big = np.full(2 * len(gf) + 1, 7.0)
+        big[1::2] = gf
+        return big[1::2], "strided"
+    if how == 4:
+        return gf[::-1].copy()[::-1], "reversed"
+    if how == 5:
+        ro = gf.copy()
+        ro.setflags(write=False)
+        return ro, "readonly"
+    return gf, "float64"
 
 
 def record(inp):
     """one call of the real doWF, logged at its return"""
     from pyphysim.comm import waterfilling
-    t = dict(inp)
-    g = np.array([a / b for a, b in inp["g"]], dtype=float)
+    t = {k: inp[k] for k in ("g", "p", "n0", "es")}
+    t["how"] = inp.get("how", 0)
+    g, t["as"] = present(np.array([a / b for a, b in inp["g"]], dtype=float), inp, inp.get("how", 0))
     try:
         with np.errstate(all="ignore"):
             pw, mu = waterfilling.doWF(g, inp["p"][0] / inp["p"][1], inp["n0"][0] / inp["n0"][1],
@@ -63,7 +86,7 @@ def validate(ctx, traces, label):
     os.makedirs(tlc.WORK, exist_ok=True)
     path = os.path.join(tlc.WORK, f"c12-traces-{uuid.uuid4().hex[:8]}.json")
     with open(path, "w") as f:
-        json.dump([{k: v for k, v in t.items() if k != "raw"} for t in traces], f)
+        json.dump([{k: v for k, v in t.items() if k not in ("raw", "as", "how")} for t in traces], f)
     try:
         env = dict(JVM_ENV, TRACE_FILE=path)
         # run 1: the conformance invariant over all traces (stops at the first mismatching call)
@@ -86,7 +109,7 @@ def validate(ctx, traces, label):
 
 
 def describe(t, mm):
-    call = (f"doWF(g={['%d/%d' % tuple(x) for x in t['g']]}, P={t['p'][0]}/{t['p'][1]}, N0={t['n0'][0]}/{t['n0'][1]}, "
+    call = (f"doWF(g={['%d/%d' % tuple(x) for x in t['g']]} as {t.get('as', 'float64')} array, P={t['p'][0]}/{t['p'][1]}, N0={t['n0'][0]}/{t['n0'][1]}, "
             f"Es={t['es'][0]}/{t['es'][1]}) returned {t['raw']}: ")
     what = {"raised": "the call raised", "shape": "wrong number of powers", "inexact": "a result is not a rational with small denominator",
             "den": "a result is not a multiple of 1/U (cannot satisfy KKT)", "nonneg": "negative power",
@@ -99,7 +122,7 @@ def judge(ctx, traces, bad):
     order = sorted(bad, key=lambda i: (len(traces[i - 1]["g"]), i))
     for i in order:
         t, mm = traces[i - 1], bad[i]
-        case = {"stage": "T", "trace": {k: t[k] for k in ("g", "p", "n0", "es")}, "observed": t["raw"], "mismatch": mm}
+        case = {"stage": "T", "trace": dict({k: t[k] for k in ("g", "p", "n0", "es")}, how=t.get("how", 0)), "observed": t["raw"], "mismatch": mm}
         if mm[0] == FID:
             ctx.finding(FID, describe(t, mm), case)
         else:
